@@ -88,6 +88,11 @@ def run_single(cfg: dict, ctx, letters=None, conn_letters=None, fp=True, prior=(
             if int.from_bytes(c0.request_bytes()[:2], 'big') == cfg['tx_start']:
                 break
     for sc in prior:
+        if sc == 'NEWLOOP':
+            # the object lives on, the next request comes from the next asyncio.run(): previous loop shut down and closed
+            loop.shutdown_like_asyncio_run()
+            loop = KLoop(kern=loop.kern)
+            continue
         if isinstance(sc, dict):       # an earlier request with scripted connect outcomes as well
             peer.forced_conn = list(sc['conn'])
             sc = sc['tx']
